@@ -626,7 +626,14 @@ pub fn check<W: Workload>(w: &W, tier: Tier, plan: BatchPlan) -> i32 {
         } else {
             write_replay(w, f, &case, false, execs)
         };
+        // the replay file must reproduce the violation in a fresh process
+        let fresh = std::process::Command::new(std::env::current_exe().expect("exe"))
+            .args(["replay", &path])
+            .output()
+            .map(|o| o.status.code() == Some(1) && String::from_utf8_lossy(&o.stdout).contains(&f.signature))
+            .unwrap_or(false);
         println!("violation: {} :: {}", f.signature, f.message);
+        println!("replay file {} ({}), reproduced in a fresh process: {}", path, if confirmed { "minimised" } else { "not minimised" }, fresh);
         println!("VIOLATION property={} replay={}", w.property(), path);
     }
     if let Some((sig, msg)) = w.batch_verdict(&r.acct) {
